@@ -19,6 +19,7 @@ import json
 import multiprocessing
 import os
 import shutil
+import sys
 
 import nbformat
 
@@ -185,7 +186,30 @@ async def _serve(mode, d, reqs):
             streams[k] = st
         params["difftool_args"] = streams
     prefix = params.get("base_url", "/")
-    app = make_app(cwd=d, **params)
+    if mode == "server":
+        # the plain server's start-up parameters are the ones its real entry point (`nbdime server`,
+        # nbdimeserver.main) hands to main_server for a default command line
+        import nbdime.webapp.nbdimeserver as srv
+        captured = {}
+        orig = srv.main_server
+
+        def capture(on_port=None, closable=False, **kw):
+            captured.update(dict(kw, closable=closable))
+            return 0
+        srv.main_server = capture
+        old_argv = list(sys.argv)
+        sys.argv = ["nbdime"]
+        try:
+            srv.main(["--port", "0", "-w", d])
+        finally:
+            srv.main_server = orig
+            sys.argv = old_argv
+        for key in ("port", "ip"):
+            captured.pop(key, None)
+        captured.setdefault("cwd", d)
+        app = make_app(**captured)
+    else:
+        app = make_app(cwd=d, **params)
     sockets = netutil.bind_sockets(0, "127.0.0.1")
     server = httpserver.HTTPServer(app)
     server.add_sockets(sockets)
